@@ -497,7 +497,7 @@ fn cmd_names(maxlen: usize) -> i32 {
     std::panic::set_hook(Box::new(|_| {}));
     let alphabet = ['p', 't', '/', 's', 'é', '-'];
     let stems = ["projects/", "projects/p", "projects/p/topics/", "projects/p/subscriptions/", "projects/p/topic/", "projects//topics/", "project/p/topics/", "projects/p/topics", "projects/pp/tobics/", "",
-                 "projects", "project", "projects/a/b/topics/", "projects/projects/p/topics/", "projects/projects/p/subscriptions/", "projects/projects/topics/", "projects/projects/subscriptions/", "projects/p/topics/topics/", "projects/topics/topics/", "projects/p/subscriptions/s/topics/", "projects/p/topics/t/subscriptions/", "projects/p/x/subscriptions/", "projectsé/p/topics/", "projectsé/p/subscriptions/", "projects/pé/topics/t", "projects/p/topicsé/t", "projects/p/subscriptions/é"];
+                 "projects", "project", "projects/a/b/topics/", "/projects/p/topics/", "/projects/p/subscriptions/", "//projects/p/topics/", "/", "projects/projects/p/topics/", "projects/projects/p/subscriptions/", "projects/projects/topics/", "projects/projects/subscriptions/", "projects/p/topics/topics/", "projects/topics/topics/", "projects/p/subscriptions/s/topics/", "projects/p/topics/t/subscriptions/", "projects/p/x/subscriptions/", "projectsé/p/topics/", "projectsé/p/subscriptions/", "projects/pé/topics/t", "projects/p/topicsé/t", "projects/p/subscriptions/é"];
     let mut n = 0u64;
     // second pass: characters that formatting / escaping code tends to treat specially, after the canonical stems
     let special = ['\'', '"', '\\', '\u{7}', '\n', '\u{301}', ' ', '%', '#', '?', 'a'];
@@ -1303,9 +1303,58 @@ async fn run_push_stale(n: usize) -> Result<(), Fail> {
     }
     Ok(())
 }
+/// C08 with pulls larger than the server-side page: first deliveries stay in publish order when a consumer asks for more
+/// than 1000 messages and the backlog holds more than that
+async fn run_big_pull_order(sizes: &[usize], pull_max: u16, pulls_before_more: usize) -> Result<(), Fail> {
+    let tm = TopicManager::new();
+    let sm = SubscriptionManager::new(Default::default());
+    let topic = tm.create_topic(TopicName::new("p", "big")).map_err(|_| Fail { prop: "SETUP", what: "create".into() })?;
+    let sub = sm.create_subscription(SubscriptionInfo::new_with_defaults(SubscriptionName::new("p", "big")), Arc::clone(&topic)).await.map_err(|_| Fail { prop: "SETUP", what: "create sub".into() })?;
+    let mut published: Vec<String> = Vec::new();
+    for (b, n) in sizes.iter().enumerate() {
+        let r = topic.publish_messages((0..*n).map(|i| TopicMessage::new(Bytes::from(vec![b as u8, (i >> 8) as u8, i as u8]), None)).collect()).await.map_err(|_| Fail { prop: "SETUP", what: "publish".into() })?;
+        published.extend(r.message_ids.iter().map(|i| i.to_string()));
+    }
+    let mut first_seen: Vec<String> = Vec::new();
+    let mut seen = std::collections::HashSet::new();
+    for _ in 0..pulls_before_more {
+        settle().await;
+        let m = sub.pull_messages(pull_max).await.map_err(|_| Fail { prop: "SETUP", what: "pull".into() })?;
+        for x in m.iter() { let id = x.message().id.to_string(); if seen.insert(id.clone()) { first_seen.push(id); } }
+        sub.acknowledge_messages(m.iter().map(|x| x.ack_id()).collect()).await.map_err(|_| Fail { prop: "SETUP", what: "ack".into() })?;
+    }
+    let r = topic.publish_messages(vec![TopicMessage::new(Bytes::from(vec![255]), None)]).await.map_err(|_| Fail { prop: "SETUP", what: "publish".into() })?;
+    published.extend(r.message_ids.iter().map(|i| i.to_string()));
+    // drain over two lease periods, acknowledging everything that arrives: only the first delivery of each message counts
+    for _ in 0..24 {
+        settle().await;
+        loop {
+            let m = sub.pull_messages(pull_max).await.map_err(|_| Fail { prop: "SETUP", what: "pull".into() })?;
+            if m.is_empty() { break; }
+            for x in m.iter() { let id = x.message().id.to_string(); if seen.insert(id.clone()) { first_seen.push(id); } }
+            sub.acknowledge_messages(m.iter().map(|x| x.ack_id()).collect()).await.map_err(|_| Fail { prop: "SETUP", what: "ack".into() })?;
+        }
+        if first_seen.len() == published.len() { break; }
+        tokio::time::sleep(Duration::from_secs(1)).await;
+    }
+    let pos: std::collections::HashMap<&String, usize> = published.iter().enumerate().map(|(i, x)| (x, i)).collect();
+    for w in first_seen.windows(2) {
+        if let (Some(a), Some(b)) = (pos.get(&w[0]), pos.get(&w[1])) {
+            if a > b { return Err(Fail { prop: "C08", what: format!("publishes of {:?} then 1 message on one subscription, pulls of up to {} with every delivery acknowledged at once: the first delivery of published message #{} came after the first delivery of the later published message #{}", sizes, pull_max, b + 1, a + 1) }); }
+        }
+    }
+    if first_seen.len() != published.len() { return Err(Fail { prop: "C01", what: format!("{} of {} published messages were delivered within two lease periods of draining", first_seen.len(), published.len()) }); }
+    Ok(())
+}
 fn cmd_wakeup(rounds: usize) -> i32 {
     // every scenario runs; each failing one prints its own WITNESS line
     let mut bad = 0;
+    for (sizes, max, pulls) in [(vec![500usize, 500, 500], 2000u16, 1usize), (vec![1500], 1200, 2), (vec![700, 700], 1001, 1), (vec![300, 300], 5000, 1)] {
+        if let Err(e) = rt().block_on(run_big_pull_order(&sizes, max, pulls)) {
+            println!("WITNESS {{\"kind\":\"wakeup\",{},\"scenario\":\"big_pull_order\",\"observed\":{:?}}}", prop_json(e.prop), e.what);
+            bad += 1; break;
+        }
+    }
     for n in [300usize, 900] {
         if let Err(e) = rt().block_on(run_push_stale(n)) {
             println!("WITNESS {{\"kind\":\"wakeup\",{},\"scenario\":\"push_stale_page\",\"observed\":{:?},\"backlog\":{}}}", prop_json(e.prop), e.what, n);
